@@ -232,6 +232,8 @@ def check_bounded(ctx: Ctx, rule: str, fn: FunctionInfo, integer: bool, cls=None
         v = o.value
         if isinstance(v, Opaque):
             bad = [n for n in o.env.facts.notes if isinstance(n, tuple) and n[0] in ("bad-modulus", "bad-divisor")]
+            kind_ = "bad-modulus" if v.why.startswith("modulus") else "bad-divisor"
+            bad = [n for n in bad if n[0] == kind_] + [n for n in bad if n[0] != kind_]     # the operation that made the result opaque first
             if bad and bad[0][2] is not None and v.why.startswith(("modulus", "divisor")):
                 what = "modulus" if bad[0][0] == "bad-modulus" else "divisor"
                 ctx.ob(rule, fn, o.node, f"every {what} is non-zero/positive on path [{cond}]", False,
@@ -417,6 +419,23 @@ def rule_r3(ctx: Ctx) -> None:
                 bad = f"on a list of {n_}: {len(got)} draws return {sorted(set(map(repr, got)))} - not every element exactly once"
         ctx.ob("C18.R3", f, f.node, "pop_random removes exactly the element it returns; every element for exactly one draw (lists of 1..3)",
                False if bad else (None if und else True), bad or und or "")
+        # elements that are equal but not identical (equal nodes, nested lists, 1 / 1.0 / True): the object removed is the object returned
+        bad = und = None
+        try:
+            runs = explore(ctx, f.cls, f, {"self": Sym("self"), p_: [[Sym("v")], [Sym("v")], [Sym("w")]]})
+        except Budget:
+            runs, und = [], "too many interpretations"
+        for draws, trace, rv, env_after, notes in runs:
+            after = env_after.get(p_)
+            if notes or rv is UNKNOWN or not isinstance(after, list) or any(e.kind == "raise" for e in trace):
+                und = und or (notes[0] if notes else "result not followed")
+                continue
+            if any(x is rv for x in after):
+                bad = bad or (f"for the draw {draws} on three elements of which two are equal, the object returned is still in the list: another (equal) "
+                              f"object was removed - popping a pool empty hands the same object out twice")
+            elif len(after) != 2:
+                bad = bad or f"for the draw {draws} the list keeps {len(after)} of 3 elements"
+        ctx.ob("C18.R3", f, f.node, "pop_random removes the very object it returns (equal but distinct elements)", False if bad else (None if und else True), bad or und or "")
 
     # ---- choice_weighted
     for f in impls("choice_weighted"):
